@@ -1696,6 +1696,9 @@ class AttrParser(BaseParser):
                 "u": Signedness.UNSIGNED,
                 "i": Signedness.SIGNLESS,
             }
+            # As in MLIR, the bitwidth of an integer type is limited to 2^24 - 1
+            if len(match.group(1)) > 8 or int(match.group(1)) > 16777215:
+                self.raise_error("integer bitwidth is limited to 16777215 bits")
             self._consume_token()
             return IntegerType(int(match.group(1)), signedness[name[0]])
 
